@@ -24,6 +24,9 @@ pub struct RefRun {
     pub error: Option<(usize, String)>,
     pub bundle: BundleState,
     pub readback: Readback,
+    /// Database keys each completed step semantically accessed (accounts / slots / code loaded by
+    /// its journal), for judging where a transient fault may legitimately surface.
+    pub loaded: Vec<std::collections::BTreeSet<crate::db::Key>>,
 }
 
 pub fn err_sig<E: std::fmt::Display>(e: &EVMError<E>) -> String {
@@ -58,6 +61,8 @@ pub struct RefOptions<'a> {
     pub probe_slots: &'a [U256],
     /// Called after the run with faults to be disarmed before read-back.
     pub before_readback: &'a dyn Fn(),
+    /// Called before each transaction with its index.
+    pub on_tx: &'a dyn Fn(usize),
 }
 
 /// Run the block in order on stock revm with an optional inspector factory.
@@ -77,6 +82,7 @@ where
     let mut state: State<_> = StateBuilder::new().with_bundle_update().with_database_ref(db).build();
     let mut outcomes = Vec::new();
     let mut deltas = Vec::new();
+    let mut loaded = Vec::new();
     let mut error = None;
 
     if opts.preload_beneficiary {
@@ -105,8 +111,21 @@ where
     }
     if error.is_none() {
         for (i, tx) in txs.iter().enumerate() {
+            (opts.on_tx)(i);
             match evm.inspect_tx(tx.clone()) {
                 Ok(ras) => {
+                    let mut keys = std::collections::BTreeSet::new();
+                    for (a, acc) in ras.state.iter() {
+                        keys.insert(crate::db::Key::Basic(*a));
+                        // code counts as accessed only if the journal actually loaded it
+                        if acc.info.code.is_some() && !acc.info.is_empty_code_hash() {
+                            keys.insert(crate::db::Key::Code(acc.info.code_hash));
+                        }
+                        for slot in acc.storage.keys() {
+                            keys.insert(crate::db::Key::Storage(*a, *slot));
+                        }
+                    }
+                    loaded.push(keys);
                     deltas.push(Some(canon_delta(&ras.state)));
                     evm.ctx.journaled_state.database.commit(ras.state);
                     outcomes.push(TxExecutionOutcome::Executed(ras.result));
@@ -115,6 +134,7 @@ where
                     EVMError::Transaction(t) => {
                         outcomes.push(TxExecutionOutcome::Skipped(t));
                         deltas.push(None);
+                        loaded.push([crate::db::Key::Basic(tx.caller)].into_iter().collect());
                     }
                     other => {
                         error = Some((i, err_sig(&other)));
@@ -130,7 +150,7 @@ where
     state.merge_transitions(if opts.with_reverts { BundleRetention::Reverts } else { BundleRetention::PlainState });
     let bundle = state.take_bundle();
     let rb = readback(&mut StateMut(&mut state), opts.probe_addrs, opts.probe_slots);
-    (RefRun { outcomes, deltas, error, bundle, readback: rb }, inspector)
+    (RefRun { outcomes, deltas, error, bundle, readback: rb, loaded }, inspector)
 }
 
 /// `State`'s error is wrapped; expose it with a flat `Display` error.
